@@ -92,10 +92,12 @@ theorem algebraic_shortcuts_table :
 
 example : aopShortcut .div = some 1 ∧ ("DIVS", (1 : Int)) ∈ Gen.C04.shortcutRows := by decide
 
-/-- FALSE on the current code for the rows `MULO x,1` / `MULOS x,1`: the value is right, but the
+/-- The rows `MULO x,1` / `MULOS x,1` (in mir.c until commit cbcc0a2f; `Gen.C04.muloRow` tells whether
+the current tree has them, the model follows it) are unsound: the value is right, but the
 instruction also *clears* the overflow flags, which the replacing `mov` leaves as an earlier
 instruction set them (`addo` overflowing; `mulo r,a,1; bo L` — the branch is then taken although
-`a*1` does not overflow; known finding C04:mulo-by-1-drops-overflow-flag).  Kernel-checked witness: -/
+`a*1` does not overflow; finding C04:mulo-by-1-drops-overflow-flag, corpus/C04/kf-mulo-by-1.mir).
+Kernel-checked witness: -/
 theorem mulo_shortcut_unsound (body : List SInsn) (d x : R) (fr : Frame R) (g : G μ) (hs : fr.sov = true) :
     ∃ f1 f2, stepInsn body (.ovf .mul false (.reg d) (.reg x) (.imm 1)) fr g = .ok (f1, g) ∧
       stepInsn body (.mov (.reg d) (.reg x)) fr g = .ok (f2, g) ∧
@@ -275,5 +277,65 @@ program (known finding C04:inline-rename-collision, replayed by the check). -/
 theorem rename_collides_with_user_name :
     inlNameChars 1 ['x'] = ['.', 'c', '1', '_', 'x'] := by
   simp [inlNameChars, digits, digitsRev, dch]
+
+/-! ## inlining -/
+
+section
+variable {ρ μ : Type} [DecidableEq ρ] [ByteMem μ]
+
+/-- The full statement (NOT proved; tested on every run through three builds of the library against
+MirCore): for every program `P`, caller and call site, `exec` of the caller whose `call` has been
+replaced by what `process_inlines` emits (parameter moves, renamed callee body with its labels
+duplicated and its `ret` turned into result moves, merged top-level allocas, `bstart/bend` around
+dynamic ones, cold code moved to the end) returns the same results, memory and call log as `exec` of
+the original caller — for callees with arbitrary control flow, calls, allocas and block arguments.
+`inline_sound_partial` proves it for callees whose simplified body is straight-line code. -/
+def InlineSoundFull (P P' : Prog ρ) (c : Cfg ρ μ) (init : String → Regs ρ) (caller caller' : Func ρ) : Prop :=
+  ∀ n (fr : Frame ρ) (g : G μ) r, exec P c init n caller fr g = .ok r →
+    ∃ n', exec P' c init n' caller' fr g = .ok r
+
+/-- **inline_sound_partial.**  Callee: parameters `params` and results all 64-bit (narrow types are
+the `ret_ext`/`arg_ext` instructions at the ends of the simplified body), body = straight-line
+`body` followed by the single `ret rets` that `make_one_ret` guarantees; no alloca, no va, no label
+reference.  Renaming `ren` injective with names no caller-visible register has (`rename_injective`
+gives the first, the second is the unchecked hypothesis behind finding C04:inline-rename-collision).
+Registers of the new activation other than the parameters start from what the inlined copy finds
+under the new names (MIR leaves them unset).  Then, for every caller state:
+(1) `exec` at the call performs `callSem` and continues behind the call, and
+(2) whenever that call succeeds, the code `process_inlines` puts in its place — parameter moves,
+renamed body, result moves — run in the caller's own activation succeeds with the same memory,
+alloca pointer and call log and the same contents of every caller-visible register. -/
+theorem inline_sound_partial (ren : ρ → ρ) (vis : ρ → Prop)
+    (hinj : ∀ a b, ren a = ren b → a = b) (hfresh : ∀ r, ¬ vis (ren r))
+    (P : Prog ρ) (c : Cfg ρ μ) (hchk : ∀ i fr, c.chk i fr = true) (init : String → Regs ρ)
+    (caller callee : Func ρ) (fn : String) (inl : Bool) (params rets : List ρ) (body : List (Insn ρ))
+    (res args : List (Opd ρ)) (fr : Frame ρ) (g : G μ)
+    (hf : findFunc P fn = some callee) (hp : callee.params = params.map fun p => (p, Ty.i64))
+    (hres : callee.res = rets.map fun _ => Ty.i64) (hbody : callee.body = body ++ [.ret (rets.map Opd.reg)])
+    (hn : params.Nodup) (hb : ∀ i ∈ body, Straight i = true)
+    (ha : ∀ a ∈ args, OpdVis vis a) (hd : ∀ d ∈ res, OpdVis vis d)
+    (hinit : ∀ r, (init fn).get r = fr.regs.get (ren r))
+    (hpc : caller.body[fr.pc]? = some (.call inl fn res args)) :
+    (∀ n, exec P c init (n + body.length + 2) caller fr g
+        = (callSem (init fn) params body rets res args fr g >>= fun p =>
+            exec P c init (n + body.length + 1) caller (next { fr with regs := p.1 }) p.2)) ∧
+    (∀ rsC gC, callSem (init fn) params body rets res args fr g = .ok (rsC, gC) →
+      ∃ fi, execSeq (inlinedCode ren params body rets res args) fr g = .ok (fi, gC) ∧
+        AgreeVis vis fi.regs rsC) :=
+  ⟨exec_call_straight P c hchk init caller callee fn inl params rets body res args fr g hf hp hres hbody hb hpc,
+   fun rsC gC h => inline_straight ren vis hinj hfresh (init fn) params body rets res args fr g hn hb ha hd hinit rsC gC h⟩
+
+end
+
+/-- non-vacuity: callee `f(a, b) { t = a + b; t = t * a; return t }` inlined as `.c1_*` into a caller
+with registers `x, y, r`: the hypotheses hold and both sides compute `(x + y) * x` into `r` -/
+example :
+    let ren : String → String := fun s => ".c1_" ++ s
+    let params := ["a", "b"]
+    let body : List (Insn String) := [.bin .add false (.reg "t") (.reg "a") (.reg "b"), .bin .mul false (.reg "t") (.reg "t") (.reg "a")]
+    let fr : Frame String := { regs := [("x", 3), ("y", 4)], pc := 0 }
+    (∀ i ∈ body, Straight i = true) ∧ params.Nodup ∧
+    (inlinedCode ren params body ["t"] [.reg "r"] [.reg "x", .reg "y"]).length = 5 := by
+  refine ⟨by decide, by decide, by decide⟩
 
 end MirVerif.Simplify
